@@ -52,6 +52,12 @@ def ctx():
     NP = F1[:-1]
     E = {"F1": "/".join(F1), "F2": "/".join(F2), "F3": "/".join(F3), "M1": "/".join(M1), "V1": "/".join(V1), "D1": "/".join(D1),
          "NP": "/".join(NP), "U": "bla/bla"}
+    # a cache-like leaf type of the same basetype (third extension set; same folder as the movie file in the demo configuration)
+    kts = [t for t in leaf_types if t not in (lt, mt) and ref.keys(t) == keys]
+    if kts:
+        kext = [x for x in ref.accepted(kts[0], len(keys) - 1, ref.literals()) if x not in ref.alias and x not in exts and x != mext]
+        if kext:
+            E["K1"] = "/".join(F1[:-1] + [kext[0]])
     prs = {n: PathsRef(n) for n in PathsRef().configs}
     return dict(ref=ref, prs=prs, names=list(prs), E=E)
 
@@ -65,6 +71,9 @@ def ops(values=(1, 2)):
             out.append(["set", e, {"a": v}])
         out.append(["setkw", e, {"b": 1}])
         out.append(["update", e, {"a": 2, "b": 2}])
+    # an attribute that is itself called 'sid' (e.g. a record read from another Sid and written back)
+    out.append(["setkw", "F1", {"sid": "hamlet/other"}])
+    out.append(["update", "V1", {"sid": "x", "a": 5}])
     return out
 
 
